@@ -690,7 +690,7 @@ pub fn check(prop: &str, tier: Tier) -> i32 {
             "distinct_interleavings": col.interleavings.len(),
             "states_measure": meta.states_measure,
             "interleavings_measure": "distinct (event kind, byte offset inside the event at which a read returned short) pairs plus, on the live pipe, distinct (recorder steps so far, parser read calls so far) pairs at each recorder activation",
-            "real_components": ["peppi (built from the repository's working tree)", "arrow2 0.17", "tar 0.4", "serde_json", "xxhash-rust", "byteorder", "encoding_rs", "lz4 / zstd (C libraries via arrow2)"],
+            "real_components": ["peppi (built from the repository's working tree)", "arrow2 0.17", "tar 0.4", "serde_json", "xxhash-rust", "byteorder", "encoding_rs", "lz4 / zstd (C libraries via arrow2)", "the file system under the Opts.debug dump directory (real tmpfs, written by peppi, never read back; one scenario in 24)"],
             "stub_components": ["recorder (reference model + workload)", "disk / pipe (SimStream, SimSink)", "live pipe scheduler", "process supervisor + watchdog", "allocator budget (1 GiB single request)"],
             "determinism_audit": {"rechecked": if early_stop { 0 } else { audited }, "mismatches": col.harness_errors.iter().filter(|e| e.starts_with("determinism audit")).count()},
             "sampled_run_digest": format!("{:016x}", sample_digest),
